@@ -33,7 +33,7 @@ def natToHex (n : Nat) (width : Nat) : String :=
 def hex (s : Str) : String :=
   if s.isEmpty then "-" else
   let bytes := (String.ofList s).toUTF8
-  String.ofList (bytes.toList.flatMap fun b => [hexChars[b.toNat / 16]!, hexChars[b.toNat % 16]!])
+  bytes.foldl (fun (acc : String) b => (acc.push hexChars[b.toNat / 16]!).push hexChars[b.toNat % 16]!) ""
 
 abbrev V := Value Float
 abbrev Ex := Expr Float
